@@ -406,6 +406,9 @@ fn defs_for(ctx: &Ctx, count: usize, mel_bias: bool, salt: u64) -> Vec<Def> {
 	defs.push(unit("AllSkipped3", vec![var(true), var(true), var(true)]));
 	defs.push(unit("Never", vec![]));
 	defs.push(unit("SkipFirst", vec![var(true), var(false), var(true), var(false)]));
+	// zero-sized in memory yet one byte on the wire: what in-place array/box decoding must still read
+	defs.push(unit("OnlyVariant", vec![VarDef { index_attr: Some(7), discriminant: None, skip: false, fields: vec![], tuple: false }]));
+	defs.push(unit("OneLiveVariant", vec![var(true), var(false)]));
 	// index attribute next to an explicit discriminant (the attribute wins), and discriminant-only variants
 	let dv = |index_attr: Option<u32>, discriminant: Option<u32>, skip: bool| VarDef { index_attr, discriminant, skip, fields: vec![], tuple: false };
 	defs.push(unit("AttrOverDiscr", vec![dv(Some(7), Some(3), false), dv(None, Some(9), false), dv(None, None, false), dv(Some(0), Some(200), false), dv(None, Some(201), true)]));
